@@ -116,7 +116,8 @@ Proof.
 Qed.
 
 (* ---------------------------------------------------------------- what verdict 0 establishes *)
-Lemma verdict_bits agree ok x y : 0 <= x -> 0 <= y -> verdict agree ok + (x + y) = 0 -> agree = true /\ ok = true /\ x = 0 /\ y = 0.
+Lemma verdict_bits agree ok x y z : 0 <= x -> 0 <= y -> 0 <= z -> verdict agree ok + (x + y + z) = 0 ->
+  agree = true /\ ok = true /\ x = 0 /\ y = 0.
 Proof. unfold verdict. destruct agree, ok; intros; repeat split; lia. Qed.
 
 Theorem verdict0_sfile d t text h out : in_scope d t = true -> v_sfile2 d t text h out = 0 ->
@@ -125,7 +126,7 @@ Theorem verdict0_sfile d t text h out : in_scope d t = true -> v_sfile2 d t text
 Proof.
   intros Hs Hv. unfold v_sfile2, extra_bits2 in Hv. cbv zeta in Hv. rewrite Hs in Hv.
   apply verdict_bits in Hv; [|destruct (kf_leading_ws_after_numeric d t); lia|
-                             destruct (true && negb _); lia].
+                             destruct (true && negb _); lia|destruct (kf_float_print_overflow _ _ t); lia].
   destruct Hv as [Ha [Hok [Hk Hc]]].
   apply andb_true_iff in Ha. destruct Ha as [Ha _]. apply andb_true_iff in Ha. destruct Ha as [Ha _].
   apply bytes_eqb_eq in Ha. unfold m_sfile_gen in Ha. simpl in Ha. rewrite (write_text_ext _ _ (F_tab_model t)) in Ha.
@@ -143,7 +144,7 @@ Theorem verdict0_recfile d t text out : in_scope d t = true -> v_recfile2 d t te
 Proof.
   intros Hs Hv. unfold v_recfile2, extra_bits2 in Hv. cbv zeta in Hv. rewrite Hs in Hv.
   apply verdict_bits in Hv; [|destruct (kf_leading_ws_after_numeric d t); lia|
-                             destruct (true && negb _); lia].
+                             destruct (true && negb _); lia|destruct (kf_float_print_overflow _ _ t); lia].
   destruct Hv as [Ha [Hok [Hk Hc]]].
   apply andb_true_iff in Ha. destruct Ha as [Ha _].
   apply bytes_eqb_eq in Ha. unfold m_recfile_gen in Ha. simpl in Ha. rewrite (write_text_ext _ _ (F_tab_model t)) in Ha.
